@@ -95,9 +95,10 @@ def uniform_loss(attrs, shape, plain, total):
 def run_local(m, dom, tuples, total, oracle, iters, prior=None):
     eng = m.LocalInference(dom, iters=iters, marginal_oracle=oracle)
     if prior is not None:
-        # the estimator object has a history: an earlier estimate() on the same cliques with other answers
-        with quiet(), np.errstate(all='ignore'):
-            eng.estimate(list(prior), total=total)
+        # the estimator object has a history: one (or a dozen) earlier estimate() calls on the same cliques with other answers
+        for pr in (prior if isinstance(prior[0], list) else [prior]):
+            with quiet(), np.errstate(all='ignore'):
+                eng.estimate(list(pr), total=total)
     seen = []
     orig = eng._marginal_loss
 
@@ -133,6 +134,10 @@ def run_case(case, ctx):
             prng = np.random.RandomState(case['np_seed'] % (2 ** 32))
             prior = [(Q, np.asarray(y) * 0.5 + prng.normal(0, s_, size=np.asarray(y).shape), s_, p) for Q, y, s_, p in tuples]
             ctx.tag('estimator_object_reused')
+            if case['np_seed'] % 16 == 4 and iters <= 100 and not case['exact']:
+                # a mechanism loop: the same engine object answers a dozen measurement sets in a row
+                prior = [[(Q, np.asarray(y) * (0.5 + 0.1 * k_) + prng.normal(0, s_, size=np.asarray(y).shape), s_, p) for Q, y, s_, p in tuples] for k_ in range(12)]
+                ctx.tag('estimator_object_reused_12_times')
         try:
             eng, model, seen = run_local(m, dom, tuples, case['total'], oracle, iters, prior)
         except Exception as e:
